@@ -207,6 +207,8 @@ def run(ctx):
                 cases.append((seed, N, ["sh"] * (W + 1), None, (k,), W, W + 1))
             cases.append((seed, N, ["sh"] * (W + 1), None, (2, 1, 2), W, W + 1))
     results = H.run_many(case_run, cases, jobs=14, timeout=900)
+    for c in cases[:3]:
+        ctx.sample({"seed": c[0], "steps": c[1], "moves": c[2], "cap": c[3], "splits": c[4], "workers": c[5]})
     reqs, refs = [], []
     nbad = 0
     for case, (tag, res) in zip(cases, results):
